@@ -113,7 +113,12 @@ def mk_txn(c):
 def mk_rows(rc):
     if rc is None:
         return None
-    return {k: [dict(r, date=date.fromisoformat(r['date'])) if 'date' in r else dict(r) for r in v] for k, v in rc.items()}
+    def d(x):
+        try:
+            return date.fromisoformat(x)
+        except ValueError:
+            return x  # a date cell the loader could not parse stays text (config_loader keeps the raw value)
+    return {k: [dict(r, date=d(r['date'])) if 'date' in r else dict(r) for r in v] for k, v in rc.items()}
 
 
 # ------------------------------------------------------------------------------------------------
@@ -722,8 +727,16 @@ def date_atom():
 
 @st.composite
 def bool_atom(draw, depth, loopvar, fields):
-    c = draw(st.integers(0, 14))
-    if c == 14:
+    c = draw(st.integers(0, 15))
+    if c == 15 and loopvar is None:
+        # membership of a value in a LIST built from supplemental rows (not a substring test): exact for numbers, letter case as Python for strings
+        v = draw(st.sampled_from(['r', 'o']))
+        src = ['name', draw(st.sampled_from(['orders', 'receipts']))]
+        op = draw(st.sampled_from(['in', 'not in']))
+        if draw(st.integers(0, 3)) == 0:
+            return ['cmp', draw(st.sampled_from([['txn', 'amount'], ['name', 'amount'], ['num', 9.99]])), [[op, ['listcomp', ['attr', v, 'amount'], v, src, None]]]]
+        return ['cmp', ['str', draw(st.sampled_from(ROW_ITEMS + [x.lower() for x in ROW_ITEMS if x.strip()]))], [[op, ['listcomp', ['attr', v, 'item'], v, src, None]]]]
+    if c >= 14:
         return ['var', draw(st.sampled_from(['is_large', 'Is_Large', 'IS_LARGE', 'undefined_var']))]
     s0 = lambda: str_expr(max(depth - 1, 0), loopvar, fields)
     n0 = lambda: num_expr(max(depth - 1, 0), loopvar, fields)
@@ -745,7 +758,7 @@ def bool_atom(draw, depth, loopvar, fields):
         k7 = draw(st.integers(0, 5))
         if k7 == 0:
             return ['meth', draw(s0()), draw(st.sampled_from(['startswith', 'endswith', 'StartsWith'])), [['str', draw(st.one_of(pattern_text, word))]]]
-        if k7 == 1 and loopvar is None:
+        if k7 in (1, 2) and loopvar is None:
             v = draw(st.sampled_from(['r', 'o']))
             src = ['name', draw(st.sampled_from(['orders', 'receipts']))]
             if draw(st.booleans()):
